@@ -163,7 +163,12 @@ func genC15(seed uint64, idx int, tier string) *World {
 	reqIdx, fi := idx/c15Stride, idx%c15Stride
 	r := NewRng(Mix(seed, uint64(reqIdx)+0xc15))
 	rq := genC15Request(r)
-	w := &World{Prop: "C15", Cfg: DrawDecCfg(r), Schemas: []*Node{rq.root}, Params: map[string]int{}}
+	schemaRoot := rq.root
+	if r.P(0.15) {
+		// a top-level optional struct
+		schemaRoot = &Node{Kind: "ptr", Elem: rq.root}
+	}
+	w := &World{Prop: "C15", Cfg: DrawDecCfg(r), Schemas: []*Node{schemaRoot}, Params: map[string]int{}}
 	op := Op{Kind: "parse", Schema: 0, Front: "zhttp", Input: rq.j}
 	io := rq.io
 	if io.BodyKind == "form" {
@@ -200,7 +205,7 @@ func genC15(seed uint64, idx int, tier string) *World {
 	}
 	f := faults[fi]
 	io.TruncAt, io.Fault, io.Chunk = f.at, f.kind, f.chunk
-	s := Sentinel(rq.root)
+	s := Sentinel(schemaRoot)
 	op.Pre = &s
 	w.Tasks = [][]Op{{op}}
 	w.Params["class_"+rq.class] = 1
@@ -351,6 +356,10 @@ func runC15(x *X) *Violation {
 	}
 	x.BuildSchemas()
 	root := x.Built[0].N
+	ptrRoot := root.Kind == "ptr"
+	if ptrRoot {
+		root = root.Elem
+	}
 	op := &w.Tasks[0][0]
 	io := op.IO
 	if io == nil {
@@ -465,7 +474,7 @@ func runC15(x *X) *Violation {
 		if len(res.Calls) > 0 {
 			return &Violation{Class: "C15/schema-ran-after-decode-failure src=" + src, Detail: fmt.Sprintf("%s: %d schema callbacks ran", desc, len(res.Calls))}
 		}
-		want := CanonV(Populate(x.Built[0].Typ, Sentinel(root)))
+		want := CanonV(Populate(x.Built[0].Typ, Sentinel(x.Built[0].N)))
 		if res.Dest != want {
 			return &Violation{Class: "C15/destination-written-after-decode-failure src=" + src, Detail: fmt.Sprintf("%s: destination %s, was %s", desc, res.Dest, want)}
 		}
@@ -475,6 +484,10 @@ func runC15(x *X) *Violation {
 		x.Probes["decode_ok_after_fault"]++
 	}
 	// the chosen source's record through the plain map front end
+	if ptrRoot && src == "json" && len(seen.M) == 0 {
+		// `{}` for a top-level optional struct is "absent" (pinned upstream by TestTopLevelOptionalStruct)
+		seen = VNil()
+	}
 	exp := Op{Kind: "parse", Schema: 0, Front: "map", Input: seen, Pre: op.Pre}
 	x.SetPhase("e/")
 	x.Dec.Benign["e/"] = true
